@@ -150,6 +150,29 @@ def run_direct(case, stats):
     if t._device is not adb:
         viol.append({"mechanism": "wrong-device", "detail": "%s selected device %r" % (where, t._device.serial)})
         return viol, where
+    if rng.random() < 0.2:
+        # the backend refuses the interface: connect() fails; afterwards close() must work and the transport must count as closed
+        be.call_faults["claimInterface"] = rng.choice(["busy", "nodevice", "io"])
+        stats["failed_connects"] += 1
+        try:
+            t.connect(None)
+            viol.append({"mechanism": "connect-swallowed-error", "detail": "%s: connect() returned although claimInterface failed" % where})
+        except Exception:  # noqa
+            pass
+        try:
+            t.close()
+            t.close()
+        except Exception as e:  # noqa
+            viol.append({"mechanism": "close-raised", "detail": "%s: close() after a failed connect raised %s" % (where, type(e).__name__)})
+        for fn, err, args in ((t.bulk_read, exc.UsbReadFailedError, (10, 0.1)), (t.bulk_write, exc.UsbWriteFailedError, (b"x", 0.1))):
+            try:
+                fn(*args)
+                viol.append({"mechanism": "use-after-close", "detail": "%s: %s after a failed connect + close() returned" % (where, fn.__name__)})
+            except err:
+                stats["use_after_close_checked"] += 1
+            except Exception as e:  # noqa
+                viol.append({"mechanism": "use-after-close", "detail": "%s: %s after a failed connect + close() raised %s" % (where, fn.__name__, type(e).__name__)})
+        be.calls[:] = []
     # use before connect
     try:
         t.bulk_read(10, 0.1)
@@ -226,11 +249,18 @@ def run_direct(case, stats):
             viol.append({"mechanism": "fault-wrong-class", "detail": "%s: %s raised %s for a backend %s error, expected %s" % (where, nm, type(e).__name__, kind, err.__name__)})
     ntr = len([c for c in be.calls if c[1] in ("bulkRead", "bulkWrite")])
     expected_ms += [("bulkWrite", 0.5), ("bulkRead", 0.5)]
-    # close, then use after close
-    t.close()
+    # close, then use after close -- in a third of the cases the backend fails while the interface is released / the handle closed
+    close_fault = rng.choice([None, None, "releaseInterface", "close"])
+    if close_fault:
+        be.call_faults[close_fault] = rng.choice(sorted(fakeusb1.ERRORS))
+        stats["close_faults"] += 1
+    try:
+        t.close()
+    except Exception as e:  # noqa
+        viol.append({"mechanism": "close-raised", "detail": "%s: close() raised %s when the backend failed in %s" % (where, type(e).__name__, close_fault)})
     t.close()
     rel = [c for c in be.calls if c[1] == "releaseInterface"]
-    if len(rel) != 1 or rel[0][2] != iface:
+    if (len(rel) != 1 and not close_fault) or rel[0][2] != iface:
         viol.append({"mechanism": "release", "detail": "%s: releaseInterface calls %r" % (where, rel)})
     for fn, err, args in ((t.bulk_read, exc.UsbReadFailedError, (10, 0.1)), (t.bulk_write, exc.UsbWriteFailedError, (b"x", 0.1))):
         try:
@@ -398,7 +428,7 @@ def run_fault(case, stats):
 
 
 def run_case(case):
-    stats = {"transfers_checked": 0, "faults_injected": 0, "sessions": 0, "connects_checked": 0, "timeouts_checked": 0, "use_after_close_checked": 0}
+    stats = {"transfers_checked": 0, "faults_injected": 0, "sessions": 0, "connects_checked": 0, "timeouts_checked": 0, "use_after_close_checked": 0, "close_faults": 0, "failed_connects": 0}
     if usb_mod() is None or repo.adb_device.UsbTransport is None:
         raise RuntimeError("harness: the fake usb1 module was not picked up")
     try:
